@@ -22,7 +22,8 @@ const subSDL = `
 type Query { x: Int }
 type Subscription { listen(topic: String): Event must(topic: String): Event! batch(topic: String): [Event!]! many(topic: String): [Event] fail(topic: String): Event ticks(topic: String): Int level(topic: String): Level! }
 enum Level { LOW HIGH }
-type Event { id: ID n: Int tag: String inner: Inner list: [Int] echo(x: Int, s: String): String }
+type Event { id: ID n: Int tag: String inner: Inner list: [Int] echo(x: Int, s: String, l: [Int], o: EchoIn): String }
+input EchoIn { a: Int b: [Int] }
 type Inner { v: Int w: String }
 `
 
@@ -31,7 +32,8 @@ func subModel() *model.Schema {
 	return &model.Schema{Query: "Query", Types: []*model.TypeDef{
 		{Kind: model.Object, Name: "Query", Fields: []*model.FieldDef{f("ev", "Event")}},
 		{Kind: model.Object, Name: "Event", Fields: []*model.FieldDef{f("id", "ID"), f("n", "Int"), f("tag", "String"), f("inner", "Inner"), {Name: "list", Type: model.ListOf(model.Named("Int"))},
-			{Name: "echo", Type: model.Named("String"), Echo: true, Args: []*model.ArgDef{{Name: "x", Type: model.Named("Int")}, {Name: "s", Type: model.Named("String")}}}}},
+			{Name: "echo", Type: model.Named("String"), Echo: true, Args: []*model.ArgDef{{Name: "x", Type: model.Named("Int")}, {Name: "s", Type: model.Named("String")}, {Name: "l", Type: model.ListOf(model.Named("Int"))}, {Name: "o", Type: model.Named("EchoIn")}}}}},
+		{Kind: model.Input, Name: "EchoIn", Inputs: []*model.ArgDef{{Name: "a", Type: model.Named("Int")}, {Name: "b", Type: model.ListOf(model.Named("Int"))}}},
 		{Kind: model.Object, Name: "Inner", Fields: []*model.FieldDef{f("v", "Int"), f("w", "String")}},
 	}}
 }
@@ -280,6 +282,13 @@ func subSelectionWithVars(r *rand.Rand, sels []model.Sel) ([]model.Sel, []*model
 	}
 	vdefs = append(vdefs, x)
 	echo := &model.Field{Alias: "e0", Name: "echo", Args: []model.Arg{{Name: "x", Value: model.VarRef("x")}, {Name: "s", Value: "k"}}}
+	switch r.Intn(3) {
+	case 1:
+		// the variable sits INSIDE a list and an input object literal only
+		echo.Args = []model.Arg{{Name: "l", Value: []interface{}{int64(1), model.VarRef("x")}}, {Name: "o", Value: model.NewObjLit().Set("a", model.VarRef("x")).Set("b", []interface{}{model.VarRef("x")})}}
+	case 2:
+		echo.Args = append(echo.Args, model.Arg{Name: "o", Value: model.NewObjLit().Set("a", model.VarRef("x"))})
+	}
 	out = append(out, echo)
 	if r.Intn(3) != 0 {
 		hide := r.Intn(2) == 0
@@ -299,8 +308,15 @@ func subSelectionWithVars(r *rand.Rand, sels []model.Sel) ([]model.Sel, []*model
 		j := r.Intn(len(out))
 		if f, isF := out[j].(*model.Field); isF {
 			cp := *f
-			cp.Dirs = []model.DirUse{{Name: dir, Args: []model.Arg{{Name: "if", Value: model.VarRef("c")}}}}
-			out[j] = &cp
+			du := []model.DirUse{{Name: dir, Args: []model.Arg{{Name: "if", Value: model.VarRef("c")}}}}
+			if r.Intn(2) == 0 {
+				// ... or on an inline fragment around it: the variable appears on no field at all
+				cp2 := *f
+				out[j] = &model.Inline{Cond: []string{"Event", ""}[r.Intn(2)], Dirs: du, Sels: []model.Sel{&cp2}}
+			} else {
+				cp.Dirs = du
+				out[j] = &cp
+			}
 		}
 	}
 	if len(vars) == 0 {
